@@ -4,6 +4,8 @@
 //! writes `<dir>/<property>.<i>.req` (one request line per case, for the Lean model driver) and
 //! `<dir>/<property>.<i>.impl` (what the real lace code did on the same case), plus
 //! `<dir>/<property>.<i>.stats` (JSON: distribution of what was generated).
+mod asm;
+mod asmgen;
 mod cap;
 mod cli;
 mod dbg;
@@ -102,6 +104,8 @@ fn main() {
         "C08" => cli::run_c08(&o),
         "C20" => edit::run(&o),
         "C14" => cmd::run(&o),
+        "C05" => asm::run(&o),
+        "C19" => asm::run_seq(&o),
         other => {
             eprintln!("unknown property {other}");
             std::process::exit(2);
